@@ -287,6 +287,41 @@ func runC18(c *eng.Ctx) {
 		}
 	})
 
+	// ---- 4b'. a database with an assignment is known to the master and its shards get a state ---------------------------------------
+	c.Rule("ORDER", smgrT+".shardAssignment{database registered before its assignment is looked at}", func() {
+		f := c.Fn(smgrT + ".shardAssignment")
+		reg := c.Some(f, eng.MapUpdateOf(smgrT+".databases"), "m.databases[name] = cfg")
+		get := c.One(f, eng.AnyCallTo(smgrT+".GetShardAssign"), "m.GetShardAssign(name)")
+		c.Check(eng.DominatedBy(f, get.Instr, reg, nil), "registered-before-lookup", get.Instr, f,
+			"every database the master is told about is recorded in m.databases before the create / grow / unchanged decision: a master that took over finds every database on the 'unchanged' path, and only recorded databases are dropped from the cluster state when their config is deleted",
+			"a path reaches the assignment lookup without m.databases[name] = cfg")
+	})
+	c.Rule("PASS", smgrT+".onShardAssignmentChange{every accepted assignment initialises its shard states}", func() {
+		f := c.Fn(smgrT + ".onShardAssignmentChange")
+		ini := c.Some(f, eng.AnyCallTo(smgrT+".initializeShardState"), "m.initializeShardState(storage, assignment)")
+		n := 0
+		for _, b := range f.Blocks {
+			for _, in := range b.Instrs {
+				r, ok := in.(*ssa.Return)
+				if !ok {
+					continue
+				}
+				decodeErr := eng.DependsOn(r.Results[0], func(x ssa.Value) bool {
+					cl, ok := x.(*ssa.Call)
+					return ok && cl.Common().StaticCallee() != nil && strings.HasSuffix(cl.Common().StaticCallee().Name(), "Unmarshal")
+				})
+				if decodeErr && !eng.DominatedBy(f, r, ini, nil) {
+					continue // the undecodable event is rejected
+				}
+				n++
+				c.Check(eng.DominatedBy(f, r, ini, nil), fmt.Sprintf("initialised-before-return[%d]", n), r, f,
+					"whatever the live-node set is at that moment, an accepted assignment gets a state entry for each of its shards (offline / no leader when nobody is alive): node start-up only revives shards that HAVE an entry",
+					"a return is reached without initializeShardState")
+			}
+		}
+		c.Check(n >= 1, "accepting-returns-found", nil, f, "the handler has an accepting exit", "")
+	})
+
 	// ---- 4c. "no assignment yet" is decided by the repository's answer, not by any failing read ------------------------------------
 	c.Rule("ERRFLOW", smgrT+".GetShardAssign{errors are the callees' errors}", func() {
 		errorsOnlyFrom(c, smgrT+".GetShardAssign", eng.Any(invokeOn(".masterRepo", "Get"), eng.AnyCallTo("github.com/lindb/common/pkg/encoding.JSONUnmarshal")), "masterRepo.Get / JSONUnmarshal")
